@@ -6,5 +6,6 @@ func parts() []pbt.Part {
 	return []pbt.Part{
 		pbt.NewPart("store", 10, gen, run),
 		pbt.NewPart("http", 2, genHTTP, runHTTP),
+		pbt.NewPart("race", 1, genRace, runRace),
 	}
 }
